@@ -4,6 +4,8 @@ use crate::engine::Ctx;
 
 pub mod common;
 pub mod c01;
+pub mod c02;
+pub mod c10;
 
 pub struct PropDef {
     pub id: &'static str,
@@ -17,4 +19,4 @@ pub struct PropDef {
     pub needs_refnoise: bool,
 }
 
-pub const ALL: &[PropDef] = &[c01::DEF];
+pub const ALL: &[PropDef] = &[c01::DEF, c02::DEF, c10::DEF];
